@@ -7,5 +7,9 @@ CONSTANTS
   PanicKinds = {"str"}
   Breaker = TRUE
   Emit = FALSE
+  BeginOuts = {"ok", "fail", "bad", "noconn"}
+  StmtErrs = {"plain"}
+  FinErrs = {"plain"}
+  CtxKinds = {}
 INVARIANTS ImplTypeOK NoDeviation StateInv ImplProperty PropertyHolds CommitsIffNil ExactlyOneEnd NilOnlyAfterCommit PanicNeverNil StateMatchesLog Done
 CHECK_DEADLOCK FALSE
